@@ -137,6 +137,64 @@ def parse_reports(logdir):
     return reps
 
 
+def mixed_case(case):
+    """dispatcher so that one (slow to start) valgrind interpreter serves several workloads"""
+    w = case["w"]
+    if w == "deg":
+        return degenerate_case(case)
+    if w == "c14":
+        from vf.checks import c14
+        r_ = c14.run_case(case)
+        r_.pop("obs", None)
+        return {"bad": len(r_.get("bad", []))}
+    from vf.checks import c09
+    r_ = c09.run_case(case)
+    return {"bad": len(r_.get("bad", []))}
+
+
+def parse_memcheck(logdir):
+    """memcheck error blocks that have at least one frame inside the engine (debug build: engine-debug-*.so / its sources)"""
+    reps = []
+    for p in sorted(glob.glob(os.path.join(logdir, "vg.*"))):
+        try:
+            txt = open(p, errors="replace").read()
+        except OSError:
+            continue
+        blocks, cur = [], []
+        for line in txt.split("\n"):
+            m = re.match(r"^==\d+== (.*)$", line)
+            if not m:
+                continue
+            body = m.group(1)
+            if body.strip() == "":
+                if cur:
+                    blocks.append(cur)
+                cur = []
+            else:
+                cur.append(body)
+        if cur:
+            blocks.append(cur)
+        for b in blocks:
+            title = b[0]
+            if not re.match(r"(Invalid |Conditional jump|Use of uninitialised|Mismatched|Syscall param|Source and destination|Argument)", title):
+                continue
+            frames = [x for x in b[1:] if x.lstrip().startswith(("at 0x", "by 0x"))]
+            eng = [x for x in frames if "engine-debug" in x or "engine.cpp" in x or re.search(r"(3D|Graph|Base)\.hpp", x)]
+            if not eng:
+                continue
+            first_block = []
+            for x in b[1:]:
+                if x.lstrip().startswith(("at 0x", "by 0x")):
+                    first_block.append(x)
+                elif first_block:
+                    break
+            if not any(("engine-debug" in x or "engine.cpp" in x or re.search(r"(3D|Graph|Base)\.hpp", x)) for x in first_block):
+                continue      # the faulting stack itself does not pass through the engine (only the allocation site does)
+            site = re.sub(r"^\s*(at|by) 0x[0-9A-F]+: ", "", eng[0])[:140]
+            reps.append(("memcheck: " + re.sub(r"\d+", "N", title)[:70], site, "\n".join(b[:14])[:1500]))
+    return reps
+
+
 def main():
     if len(sys.argv) > 2 and sys.argv[1] == "--replay":
         print("replay: re-run ./check C11 with the same VERIF_SEED; the witness names the workload and case index")
@@ -226,6 +284,42 @@ def main():
                                       mech={"what": kind, "site": site, "build": "asan"})
             finally:
                 shutil.rmtree(wdir, ignore_errors=True)
+    # ---- valgrind memcheck on the whole interpreter with a -O0 -g build: uninitialised values used by the engine
+    #      (which ASan cannot see), invalid accesses inside allocations' slack; only blocks whose faulting stack passes
+    #      through the engine are reported (CPython / ld.so noise is ignored)
+    try:
+        build.engine_path("debug")
+        nvg = 60 if thorough else 6
+        mixed = []
+        for i in range(16 * nvg):
+            mixed.append({"w": ("deg", "deg", "c14", "c09")[i % 4], "seed": sd, "idx": 50000 + i})
+        vg_groups = [("vf.checks.c11:mixed_case", mixed)]
+        env = {"VERIF_ENGINE_VARIANT": "debug", "PYTHONMALLOC": "malloc"}
+        for func, cases in vg_groups:
+            res, wdir = pmap(func, cases, cpu_budget=900, wall_budget=3000, env=env, keep_dir=True,
+                             prefix=["valgrind", "--tool=memcheck", "--error-limit=no", "--num-callers=14", "--undef-value-errors=yes",
+                                     "--log-file={wdir}/vg.%p"])
+            try:
+                for c, r_ in zip(cases, res):
+                    run.case(chash(["memcheck", func, c]), nontrivial=True)
+                    if r_["status"] == "ok":
+                        run.count("memcheck_cases_ok")
+                    elif r_["status"] in ("crash", "hang"):
+                        run.violation("engine %s under memcheck" % r_["status"], {"workload": func, "case": c, "stderr": (r_.get("stderr") or "")[-300:]},
+                                      mech={"what": r_["status"], "build": "memcheck"})
+                reps = parse_memcheck(wdir)
+                run.count("memcheck_report_blocks_in_engine", len(reps))
+                seen = {}
+                for kind, site, ex in reps:
+                    seen.setdefault((kind, site), [0, ex])[0] += 1
+                for (kind, site), (n_, ex) in seen.items():
+                    run.violation(kind[:90], {"site": site, "workload": func, "reports": n_, "excerpt": ex},
+                                  mech={"what": kind, "site": site, "build": "memcheck"})
+            finally:
+                shutil.rmtree(wdir, ignore_errors=True)
+        run.require("memcheck_cases_ok")
+    except build.BuildError as e:
+        run.inconclusive_because("debug build failed: %s" % str(e)[:200])
     if run.monitors.get("asan_cases_exception", 0) + run.monitors.get("hard_cases_exception", 0) > 0.2 * max(1, run.evaluations):
         run.inconclusive_because("too many borrowed workload cases ended in a Python exception under instrumentation")
     return run.finish()
